@@ -52,7 +52,7 @@ pub fn handle_xadd(storage: &Arc<StorageEngine>, db: usize, parts: &[RespFrame])
         // Parse specific ID using optimized parsing
         let id_str = unsafe { std::str::from_utf8_unchecked(id_bytes) };
         
-        let id = match StreamId::from_string(id_str) {
+        let id = match StreamId::from_string_with_seq(id_str, 0) {
             Some(id) => id,
             None => return Ok(RespFrame::error("ERR Invalid stream ID specified as stream command argument")),
         };
@@ -103,7 +103,7 @@ pub fn handle_xrange(storage: &Arc<StorageEngine>, db: usize, parts: &[RespFrame
     let start = if start_str == "-" {
         StreamId::min()
     } else {
-        match StreamId::from_string(&start_str) {
+        match StreamId::parse_range_bound(&start_str, true) {
             Some(id) => id,
             None => return Ok(RespFrame::error("ERR Invalid stream ID specified as stream command argument")),
         }
@@ -118,7 +118,7 @@ pub fn handle_xrange(storage: &Arc<StorageEngine>, db: usize, parts: &[RespFrame
     let end = if end_str == "+" {
         StreamId::max()
     } else {
-        match StreamId::from_string(&end_str) {
+        match StreamId::parse_range_bound(&end_str, false) {
             Some(id) => id,
             None => return Ok(RespFrame::error("ERR Invalid stream ID specified as stream command argument")),
         }
@@ -196,7 +196,7 @@ pub fn handle_xrevrange(storage: &Arc<StorageEngine>, db: usize, parts: &[RespFr
     let end = if end_str == "+" {
         StreamId::max()
     } else {
-        match StreamId::from_string(&end_str) {
+        match StreamId::parse_range_bound(&end_str, false) {
             Some(id) => id,
             None => return Ok(RespFrame::error("ERR Invalid stream ID specified as stream command argument")),
         }
@@ -211,7 +211,7 @@ pub fn handle_xrevrange(storage: &Arc<StorageEngine>, db: usize, parts: &[RespFr
     let start = if start_str == "-" {
         StreamId::min()
     } else {
-        match StreamId::from_string(&start_str) {
+        match StreamId::parse_range_bound(&start_str, true) {
             Some(id) => id,
             None => return Ok(RespFrame::error("ERR Invalid stream ID specified as stream command argument")),
         }
@@ -369,7 +369,7 @@ pub fn handle_xread(storage: &Arc<StorageEngine>, db: usize, parts: &[RespFrame]
             // Read everything after 0-0
             StreamId::new(0, 0)
         } else {
-            match StreamId::from_string(&id_str) {
+            match StreamId::from_string_with_seq(&id_str, 0) {
                 Some(id) => id,
                 None => return Ok(RespFrame::error("ERR Invalid stream ID specified as stream command argument")),
             }
@@ -520,7 +520,7 @@ pub fn handle_xdel(storage: &Arc<StorageEngine>, db: usize, parts: &[RespFrame])
             _ => return Ok(RespFrame::error("ERR invalid ID format")),
         };
         
-        match StreamId::from_string(&id_str) {
+        match StreamId::from_string_with_seq(&id_str, 0) {
             Some(id) => ids.push(id),
             None => return Ok(RespFrame::error("ERR Invalid stream ID specified as stream command argument")),
         }
